@@ -60,8 +60,9 @@ func runC17(ctx *Ctx) {
 			ds = rapid.Int64Range(-maxDur, maxDur).Draw(rt, "ds")
 			dn = rapid.Int32Range(0, e9-1).Draw(rt, "dn")
 		default:
-			ds = rapid.OneOf(rapid.Int64Range(-1000, 1000), rapid.Int64Range(-maxDur, maxDur), rapid.SampledFrom([]int64{maxDur, -maxDur, 0})).Draw(rt, "ds")
-			dn = rapid.OneOf(rapid.Int32Range(0, e9-1), rapid.SampledFrom([]int32{0, 1, e9 - 1, e9 - tn, e9 - tn - 1, tn, tn + 1})).Draw(rt, "dn")
+			ds = rapid.OneOf(rapid.Int64Range(-1000, 1000), rapid.Int64Range(-maxDur, maxDur), rapid.SampledFrom([]int64{maxDur, -maxDur, 0,
+				9223372035, 9223372036, 9223372037, -9223372035, -9223372036, -9223372037, 1 << 24, 1<<24 + 1, 1 << 31, 1 << 32})).Draw(rt, "ds")
+			dn = rapid.OneOf(rapid.Int32Range(0, e9-1), rapid.SampledFrom([]int32{0, 1, e9 - 1, e9 - tn, e9 - tn - 1, tn, tn + 1, 854775807, 854775808, 854775806})).Draw(rt, "dn")
 		}
 		// make d valid: |nanos| < 1e9, sign agrees with seconds
 		if dn <= -e9 || dn >= e9 {
